@@ -80,7 +80,7 @@ class Server:
     def __init__(self, frontend, directory, prefix, principal, flags):
         self.port = free_port()
         env = dict(os.environ)
-        env["PYTHONPATH"] = "/verif:/repo"
+        env["PYTHONPATH"] = os.environ.get("PYTHONPATH", "/verif:/repo")
         env["PYTHONDONTWRITEBYTECODE"] = "1"
         env["TZ"] = "UTC"
         if frontend == "aiohttp":
@@ -95,7 +95,7 @@ class Server:
             env["CURRENT_USER_PRINCIPAL"] = principal
             env["AUTOCREATE"] = {"none": "no", "autocreate": "yes", "defaults": "defaults"}[flags]
             cmd = [sys.executable, os.path.join(HERE, "launch_wsgi.py"), str(self.port), prefix]
-        self.proc = subprocess.Popen(cmd, env=env, stdout=subprocess.DEVNULL, stderr=subprocess.PIPE, cwd="/verif")
+        self.proc = subprocess.Popen(cmd, env=env, stdout=subprocess.DEVNULL, stderr=subprocess.PIPE, cwd=os.path.dirname(HERE))
         self.up = False
         t0 = time.time()
         while time.time() - t0 < 20:
